@@ -41,6 +41,11 @@ def run(run, h):
         cb, mb = choices[hi] if hi < len(choices) and (run.tier != "quick" or hi < 2) else rng.choice(choices)
         npay = rng.randrange(1, 4) if run.tier == "quick" else rng.randrange(1, 7)
         amounts = [rng.choice([1, -1, 0, 2, 5, -3, min(cb + 1, MAXB)]) for _ in range(npay)]
+        if hi % 3 == 2:
+            # a history that passes through a ZERO customer balance (the whole balance is spent, stored at every stage, then
+            # refunded) - and, when the merchant side allows it, through a zero merchant balance
+            cb, mb = rng.randrange(1, 1000), rng.choice([0, rng.randrange(1, 2 ** 40)])
+            amounts = [cb, 0, -(cb + mb) if rng.random() < 0.5 else -1][:max(npay, 2)]
         sc_, sm_ = rng.randrange(2 ** 31), rng.randrange(2 ** 31)
         st0, base = session(h, M, cid, cb, mb, amounts, [], [], sc_, sm_)
         case0 = {"history": hi, "cb": cb, "mb": mb, "amounts": amounts, "seeds": [sc_, sm_]}
